@@ -769,11 +769,16 @@ func (vc *VC) execLoop(fr *frame, st *State, ld *loopDesc) *State {
 				lbl = fmt.Sprintf("%d", i+1)
 			}
 			g := vc.evalClause(fr, s, nil, inv, nil)
-			vc.oblige(s, kind, tag+"."+lbl, ld.pos, g, inv.Text)
+			for _, cj := range splitConj(g) {
+				vc.oblige(s, kind, tag+"."+lbl, ld.pos, cj, inv.Text)
+			}
 		}
 	}
 	fr.curLoop = append(fr.curLoop, ld.ord)
-	defer func() { fr.curLoop = fr.curLoop[:len(fr.curLoop)-1] }()
+	savedPos := fr.specPos
+	loopPos := ld.body.Lbrace + 1
+	fr.specPos = loopPos
+	defer func() { fr.curLoop = fr.curLoop[:len(fr.curLoop)-1]; fr.specPos = savedPos }()
 	checkInv(st, "inv-init")
 	// 2. havoc
 	entry := st.clone()
@@ -815,6 +820,7 @@ func (vc *VC) execLoop(fr *frame, st *State, ld *loopDesc) *State {
 		oldH := vc.heap(entry, k, srt)
 		nh := vc.fresh("H!"+k, oldH.Sort)
 		head.heaps[k] = nh
+		vc.linkHeaps(k, nh, oldH)
 		vc.loopFrameFacts(head, entry, k, oldH, nh, spec, fr)
 		vc.heapInvariant(nh, head.alloc, head.pc)
 	}
@@ -861,6 +867,7 @@ func (vc *VC) execLoop(fr *frame, st *State, ld *loopDesc) *State {
 	end := vc.execBlock(fr, body, ld.body.List)
 	fr.breaks = fr.breaks[:len(fr.breaks)-1]
 	fr.conts = fr.conts[:len(fr.conts)-1]
+	fr.specPos = loopPos
 	end = vc.merge(append([]*State{end}, cc.states...)...)
 	if end != nil && ld.post != nil {
 		end = ld.post(end)
